@@ -582,6 +582,9 @@ def memo_key(v):
     return ("id", id(v))
 
 
+_NOHOME = object()
+
+
 class Interp:
     def __init__(self, env=None, selfattrs=None, region=None, methods=None, cls_name=None, max_steps=200000, externals=None):
         self.externals = externals or {}  # call name -> f(args, kwargs) modelling a callee outside the fragment
@@ -646,7 +649,56 @@ class Interp:
                     sub.env[p] = self.eval(d_)
             else:
                 raise Undecided(f"missing argument {p}")
+        kwd = dict(zip([a.arg for a in fnode.args.kwonlyargs], fnode.args.kw_defaults))
+        for p, d_ in kwd.items():
+            if p in kwargs:
+                sub.env[p] = kwargs[p]
+            elif d_ is not None:
+                sub.env[p] = self.eval(d_)
+            else:
+                raise Undecided(f"missing keyword-only argument {p}")
+        if fnode.args.vararg is not None:
+            sub.env[fnode.args.vararg.arg] = tuple(args[len(params):])
+        if fnode.args.kwarg is not None:
+            sub.env[fnode.args.kwarg.arg] = {k: v for k, v in kwargs.items() if k not in params and k not in kwd}
         return sub.run(A.strip_docstring(fnode.body))
+
+    def _home_name(self, e):
+        """a name the scenario did not provide, looked up in the module the code under interpretation lives in: a private
+        helper function (interpreted when called), a module-level table or constant (evaluated once per scenario), or one
+        of those imported from a sibling module of the package"""
+        from . import home
+        m, _cls = home.of(e)
+        r = home.repo()
+        if m is None or r is None or e.id in self.externals:
+            return _NOHOME
+        fn_ = home.func_of(e)
+        if fn_ is not None:
+            # a parameter of the function whose body is interpreted, left out by the scenario: its default
+            dflt_ = dict(A.param_defaults(fn_))
+            dflt_.update({a.arg: d for a, d in zip(fn_.args.kwonlyargs, fn_.args.kw_defaults) if d is not None})
+            if e.id in dflt_ and not isinstance(dflt_[e.id], (ast.Dict, ast.List, ast.Set)):
+                return self.eval(dflt_[e.id])
+            if e.id in {a.arg for a in fn_.args.posonlyargs + fn_.args.args + fn_.args.kwonlyargs}:
+                return _NOHOME
+        kind, obj = r.resolve_name(m, e.id)
+        if kind == "func" and "." not in obj.qualname:
+            return Closure(obj.node, None)
+        if kind == "assign":
+            store = self.externals.setdefault("__modconst__", {})
+            key = id(obj)
+            if key not in store:
+                sub = Interp({}, {}, self.region, {}, None, externals=self.externals)
+                store[key] = sub.eval(obj)
+            return store[key]
+        return _NOHOME
+
+    def _home_method(self, node, name):
+        """method `name` of the class the node lives in (package base classes included), when the scenario lists no methods"""
+        from . import home
+        _m, cls = home.of(node)
+        f = home.method_of(cls, name)
+        return f.node if f is not None else None
 
     def _call_closure(self, clo, args, kwargs=None):
         """A closure runs in the scope it was DEFINED in (free variables of a function returned by a factory are the
@@ -1029,6 +1081,9 @@ class Interp:
                 return PyFunc(lambda a, k, ext_f=ext_f: ext_f(a, k), e.id)  # a modelled function / class used as a value
             if e.id in ("float", "int", "bool", "complex"):
                 return e.id  # a builtin scalar type used as a VALUE (dtype=float): stands for the dtype of that name
+            hv = self._home_name(e)
+            if hv is not _NOHOME:
+                return hv
             raise Undecided(f"unknown name {e.id}")
         if isinstance(e, ast.Attribute):
             if isinstance(e.value, ast.Name) and e.value.id == "self":
@@ -1046,6 +1101,9 @@ class Interp:
                     for cn_ in ([getattr(getattr(inst_, "cls", None), "name", None)] if inst_ is not None else []) + [self.cls_name]:
                         if cn_ in cs_ and e.attr in cs_[cn_]:
                             return cs_[cn_][e.attr]  # class-level attribute read through the instance
+                mn = self._home_method(e, e.attr)
+                if mn is not None and any(A.dotted(d) in ("property", "functools.cached_property", "cached_property") for d in mn.decorator_list):
+                    return self.call_function(mn, [], {}, bind_self=True)
                 raise Undecided(f"unknown attribute self.{e.attr}")
             if isinstance(e.value, ast.Name) and e.value.id not in self.env and e.value.id in (self.externals.get("__class_state__") or {}):
                 cs_ = self.externals["__class_state__"][e.value.id]
@@ -1547,6 +1605,8 @@ class Interp:
         ev = self.eval
         if name == "deepcopy" and args:
             return _deepcopy_value(ev(args[0]))
+        if name == "MappingProxyType" and len(args) == 1:
+            return ev(args[0])  # a read-only view: reads see the mapping itself
         if name in ELEMENTWISE_IDENTITY:
             if not args:
                 raise Undecided(f"{name}()")
@@ -1957,6 +2017,14 @@ class Interp:
             raise Undecided("sorted of non-strings")
         if name == "set" and isinstance(f, ast.Name):
             return set(ev(args[0])) if args else set()
+        if isinstance(f, ast.Name) and f.id not in self.env:
+            hv = self._home_name(f)
+            if isinstance(hv, Closure):
+                return self._call_closure(hv, self.eval_args(e.args), self.eval_kwargs(e.keywords))
+        if isinstance(f, ast.Attribute) and isinstance(f.value, ast.Name) and f.value.id == "self" and f.attr not in self.methods and self._mangle(f.attr) not in self.selfattrs:
+            mn = self._home_method(e, f.attr)
+            if mn is not None:
+                return self.call_function(mn, self.eval_args(e.args), self.eval_kwargs(e.keywords), bind_self=True)
         raise Undecided(f"call {A.short(e.func, 40)}")
 
 
